@@ -76,6 +76,61 @@ Proof.
 Qed.
 
 
+(* hexadecimal literals: 0x and at least one hex digit *)
+Definition is_hexd (c : byte) : bool := is_digit c || is_hexl c.
+Lemma ends_word_not_hexl d : ends_word d = true -> is_hexl d = false.
+Proof.
+  unfold ends_word, is_hws, term1, is_hexl.
+  repeat match goal with |- context [N.eqb d ?n] => destruct (N.eqb_spec d n) as [->|?]; [intros _; reflexivity|] end.
+  cbn [orb]. discriminate.
+Qed.
+Lemma hexd_facts c : is_hexd c = true -> N.eqb c 46 = false /\ (is_digit c = true \/ (is_digit c = false /\ is_hexl c = true)).
+Proof.
+  unfold is_hexd. intros H. split.
+  - apply N.eqb_neq. intros ->. cbn in H. discriminate.
+  - destruct (is_digit c); [left; reflexivity|right; split; [reflexivity|exact H]].
+Qed.
+Lemma number_loop_hexdigits : forall hs g d r conc lb lr iv,
+  Forall (fun c => is_hexd c = true) hs -> ends_word d = true -> length hs < g -> (hs <> [] \/ iv = false) ->
+  exists lb' lr',
+    number_loop g (st (hs ++ d :: r) lb lr) conc kInt false true false iv
+    = R {| kind := kInt; concrete := conc ++ hs |} (st (d :: r) lb' lr').
+Proof.
+  induction hs as [|c hs IH]; intros g d r conc lb lr iv H Hd Hg Hiv; (destruct g as [|g]; [cbn in Hg; lia|]).
+  - destruct Hiv as [Hiv| ->]; [congruence|].
+    destruct (ends_word_facts d Hd) as (D1 & D2 & D3 & D4). pose proof (ends_word_not_hexl d Hd) as D5.
+    cbn [app number_loop]. unfold tr_read_byte, st. cbn [buf read_byte rest with_buf errs failing].
+    cbn [andb]. rewrite D2, D1, D5, D3. cbn [andb].
+    unfold tr_unread_byte. cbn [buf unread_byte lastByte with_buf rest failing errs]. rewrite app_nil_r. eexists _, _. reflexivity.
+  - inversion H as [|? ? Hc Hds]; subst. destruct (hexd_facts c Hc) as [C2 C3].
+    cbn [app number_loop]. unfold tr_read_byte, st. cbn [buf read_byte rest with_buf errs failing]. cbn [andb]. rewrite C2.
+    destruct (IH g d r (conc ++ [c]) (Some c) None false Hds Hd ltac:(cbn in Hg; lia) ltac:(right; reflexivity)) as (lb' & lr' & E).
+    unfold st in E. unfold with_buf. cbn [errs].
+    destruct C3 as [C3|[C3 C4]]; rewrite C3; [|rewrite C4; cbn [andb]]; rewrite E, <- app_assoc; eexists _, _; reflexivity.
+Qed.
+Lemma number_loop_x g rest0 conc lb lr :
+  number_loop (S g) (st (120%N :: rest0) lb lr) conc kInt true false false false
+  = number_loop g (st rest0 (Some 120%N) None) (conc ++ [120%N]) kInt false true false true.
+Proof. cbn [number_loop]. unfold tr_read_byte, st. cbn [buf read_byte rest with_buf errs failing]. reflexivity. Qed.
+Lemma next_hexnumber h hs d ws r lb lr : Forall (fun x => is_hexd x = true) (h :: hs) -> ends_word d = true ->
+  Forall (fun x => is_hws x = true) ws ->
+  exists lb' lr', next (st (ws ++ 48%N :: 120%N :: (h :: hs) ++ d :: r) lb lr)
+                  = R (Some {| kind := kInt; concrete := 48%N :: 120%N :: h :: hs |}) (st (d :: r) lb' lr').
+Proof.
+  intros Hh Hd Hws. unfold next. cbn [buf rest st].
+  replace (S (S (length (ws ++ 48%N :: 120%N :: (h :: hs) ++ d :: r)))) with (length ws + S (S (S (S (length ((h :: hs) ++ d :: r))))))
+    by (rewrite !app_length; cbn [length]; rewrite ?app_length; cbn [length]; lia).
+  destruct (find_skip_ws ws (S (S (S (S (length ((h :: hs) ++ d :: r)))))) (48%N :: 120%N :: (h :: hs) ++ d :: r) lb lr Hws) as (lb1 & lr1 & ->).
+  set (body := (h :: hs) ++ d :: r) in *.
+  cbn [find]. unfold tr_read_byte, st. cbn [buf read_byte rest with_buf errs failing].
+  change (skips NRoot 48%N) with false. change (succ NRoot 48%N) with Num. cbv beta iota zeta. cbn [rest buf with_buf length app].
+  unfold with_buf. cbn [errs buf].
+  pose proof (number_loop_x (S (length body)) body [48%N] (Some 48%N) None) as Ex. unfold st in Ex. unfold byte, bytes in *. rewrite Ex. clear Ex.
+  destruct (number_loop_hexdigits (h :: hs) (S (length body)) d r ([48%N] ++ [120%N]) (Some 120%N) None true Hh Hd) as (lb' & lr' & E).
+  { unfold body, byte, bytes in *. rewrite app_length. cbn [length]. lia. } { left. discriminate. }
+  unfold st in E. unfold body, byte, bytes in *. rewrite E. cbn [errs last_err app]. eexists _, _. reflexivity.
+Qed.
+
 Definition plain (x : byte) : bool := negb (N.eqb x 34) && negb (N.eqb x 92).
 Lemma string_lit_plain : forall body g r conc lb lr, Forall (fun x => plain x = true) body -> length body < g ->
   exists lb' lr',
@@ -132,12 +187,15 @@ Proof.
 Qed.
 
 Inductive lexeme := W (c : byte) (tl : bytes) | T1 (c : byte) (k : N) | Arrow | Num (c : byte) (ds : bytes) | Str (body : bytes) | LC (body : bytes).
+(* an integer literal: decimal digits, or 0x and at least one hexadecimal digit *)
+Definition num_ok (c : byte) (ds : bytes) : Prop :=
+  is_digit c = true /\ (Forall (fun x => is_digit x = true) ds \/ (c = 48%N /\ exists h hs, ds = 120%N :: h :: hs /\ Forall (fun x => is_hexd x = true) (h :: hs))).
 Definition lex_ok (l : lexeme) : Prop :=
   match l with
   | W c tl => is_letter c = true /\ Forall (fun x => is_idc x = true) tl
   | T1 c k => term1 c = Some k
   | Arrow => True
-  | Num c ds => is_digit c = true /\ Forall (fun x => is_digit x = true) ds
+  | Num c ds => num_ok c ds
   | Str body => Forall (fun x => plain x = true) body
   | LC body => Forall (fun x => N.eqb x 10 = false) body
   end.
@@ -239,11 +297,15 @@ Proof.
     + cbn [app].
       destruct (next_arrow ws (render r tail) lb lr Hw) as (lb' & lr' & E). unfold byte, bytes in *. rewrite E. cbn [errs st]. f_equal.
       apply IH; assumption.
-    + destruct Hx as [Hc Hds].
-      destruct (render_after_word r tail Hr Hend) as (d & rest0 & Er & _ & Hd).
-      rewrite Er. cbn [app].
-      destruct (next_number c ds d ws rest0 lb lr Hc Hds Hd Hw) as (lb' & lr' & E).
-      cbn [app] in E |- *. unfold byte, bytes in *. rewrite E. cbn [errs st]. f_equal. rewrite <- Er. apply IH; assumption.
+    + destruct Hx as [Hc [Hds|(-> & h & hs & -> & Hh)]].
+      * destruct (render_after_word r tail Hr Hend) as (d & rest0 & Er & _ & Hd).
+        rewrite Er. cbn [app].
+        destruct (next_number c ds d ws rest0 lb lr Hc Hds Hd Hw) as (lb' & lr' & E).
+        cbn [app] in E |- *. unfold byte, bytes in *. rewrite E. cbn [errs st]. f_equal. rewrite <- Er. apply IH; assumption.
+      * destruct (render_after_word r tail Hr Hend) as (d & rest0 & Er & _ & Hd).
+        rewrite Er. cbn [app].
+        destruct (next_hexnumber h hs d ws rest0 lb lr Hh Hd Hw) as (lb' & lr' & E).
+        cbn [app] in E |- *. unfold byte, bytes in *. rewrite E. cbn [errs st]. f_equal. rewrite <- Er. apply IH; assumption.
     + cbn [app]. rewrite <- app_assoc. cbn [app].
       destruct (next_string body ws (render r tail) lb lr Hx Hw) as (lb' & lr' & E). unfold byte, bytes in *. rewrite E. cbn [errs st]. f_equal.
       apply IH; assumption.
